@@ -46,6 +46,12 @@ def ev(e):
         return "CAct (AUnmap %d)" % t
     if a == "close":
         return "CAct (AClose %d)" % t
+    if a == "upgradefail":
+        return "CAct (AUpgradeFail %d %d)" % (t, e.get("n", 0) + 1)
+    if a == "crash":
+        return "CAct (ACrash %d)" % t
+    if a == "probe":
+        return "CProbe %d %s" % (e.get("n", 0) + 1, "true" if e.get("seen", -1) > 0 else "false")
     if a == "look":
         return "CLook %d %s" % (e.get("n", 0) + 1, optN(e.get("seen", -1)))
     raise ValueError(a)
@@ -105,7 +111,14 @@ def impl_oracle(c):
     for k, st in enumerate(steps):
         if k >= len(looks) or k >= len(before):
             break
-        if st["op"] == "connect":
+        if st["op"] == "connect" and st.get("panic") == "connect":
+            # its OnConnect panicked: the deferred unmap ran, it must not stay registered
+            n = st.get("name", 0)
+            if looks[k][n] == st["t"]:
+                out.append(("ended-still-registered",
+                            "connection %d ended (its OnConnect callback panicked) but name %d still resolves to it"
+                            % (st["t"], n)))
+        elif st["op"] == "connect":
             n = st.get("name", 0)
             if looks[k][n] != st["t"]:
                 out.append(("newest-not-registered",
@@ -130,7 +143,13 @@ def impl_oracle(c):
     # concurrent lookups during a step see the value before or after it, never anything else
     for o in c.get("bg", []):
         k, n = o["step"], o["n"]
-        if k < len(looks) and k < len(before) and o["seen"] not in (before[k][n], looks[k][n]):
+        allowed = set()
+        if k < len(looks) and k < len(before):
+            allowed = {before[k][n], looks[k][n]}
+            if k < len(steps) and steps[k]["op"] == "connect" and steps[k].get("name", 0) == n:
+                # (a connection whose OnConnect panics is registered for a moment within its own step)
+                allowed.add(steps[k]["t"])
+        if k < len(looks) and k < len(before) and o["seen"] not in allowed:
             out.append(("lookup-gap", "during step %d a concurrent lookup of name %d resolved to %d "
                                       "(before %d, after %d)" % (k, n, o["seen"], before[k][n], looks[k][n])))
     if looks and any(x != -1 for x in looks[-1]):
@@ -239,6 +258,7 @@ def run(ck):
              "while #2 connects 0-4 ms after #1 stopped serving' with a logger that takes 2 ms per line (widening "
              "every window that contains a log statement), the name must resolve to #2 afterwards (30 rounds; 400 "
              "when a source obligation is broken). A forced schedule is non-trivial if it has >= 2 "
-             "connects; distinct = distinct (schedule, lookups after every step)",
+             "connects; also failed upgrades (plain HTTP request), side-websocket probes for an unknown session (upgraded iff "
+             "the name resolves) and connections whose OnConnect / OnDisconnect callback panics; distinct = distinct (schedule, lookups after every step)",
         assumptions=["OnConnect/OnDisconnect are the user's callbacks; the session value is whatever OnConnect returns",
                      "a failed websocket upgrade registers nothing (not modelled as a thread)"])
